@@ -184,6 +184,9 @@ func r172(c *an.Ctx) {
 			if len(r.Results) != 3 {
 				continue
 			}
+			if isRangeIndex(r.Results[1]) {
+				continue // the loop's own position
+			}
 			for _, v := range an.ValuesAt(r.Results[1]) {
 				if k, isC := an.ConstInt(v); isC {
 					if k < 0 {
@@ -530,7 +533,15 @@ func r175(c *an.Ctx) {
 			for _, r := range an.Returns(fn) {
 				if an.GuardedByNilResult(r, call, 1) {
 					r0 := allAre(an.ValuesAt(r.Results[0]), func(v ssa.Value) bool { return an.IsExtractOf(v, call, 0) })
-					r1 := allAre(an.ValuesAt(r.Results[1]), isRangeIndex)
+					r1 := isRangeIndex(r.Results[1]) || allAre(an.ValuesAt(r.Results[1]), isRangeIndex)
+					// and it is the position of the member that answered
+					for _, v := range an.Sources(call.Call.Value) {
+						if u, ok := v.(*ssa.UnOp); ok {
+							if ia, ok := u.X.(*ssa.IndexAddr); ok && ia.Index != r.Results[1] && !allAre(an.ValuesAt(r.Results[1]), func(x ssa.Value) bool { return x == ia.Index }) {
+								r1 = false
+							}
+						}
+					}
 					if r0 && r1 && allAre(an.ValuesAt(r.Results[2]), an.IsNilConst) {
 						okSucc = true
 					}
@@ -717,6 +728,72 @@ func r175(c *an.Ctx) {
 						if t != nil {
 							kept = true
 						}
+					}
+				}
+			}
+			if !kept {
+				// the same bookkeeping with a value and a flag: the remembered response is replaced only under a
+				// condition that holds at most once (a boolean that is false initially and set true with it)
+				for _, r := range an.Returns(fn) {
+					if !isFieldLoad(r.Results[2], "err") {
+						continue
+					}
+					var base ssa.Value
+					for _, v := range an.ValuesAt(r.Results[2]) {
+						if b, _, f, isF := an.FieldOf(v); isF && f == "err" {
+							base = b
+						}
+					}
+					if base == nil {
+						continue
+					}
+					okAll, n := true, 0
+					leaves := an.PhiLeaves(base)
+					if al, isAlloc := base.(*ssa.Alloc); isAlloc {
+						// the remembered response lives in a local variable: every assignment to it, with its guards
+						leaves = nil
+						for _, st := range an.StoresTo(&an.Cell{Alloc: al}) {
+							if st.Addr == ssa.Value(al) {
+								leaves = append(leaves, an.PhiLeaf{Val: st.Val, Conds: an.GuardingEdges(st)})
+							}
+						}
+					}
+					for _, lf := range leaves {
+						if _, isC := lf.Val.(*ssa.Const); isC {
+							continue // the zero value it starts with
+						}
+						n++
+						once := false
+						for _, e := range lf.Conds {
+							cond, branch := e.If.Cond, e.Branch
+							for {
+								if u, isNot := cond.(*ssa.UnOp); isNot && u.Op == token.NOT {
+									cond, branch = u.X, !branch
+									continue
+								}
+								break
+							}
+							flag, isPhi := cond.(*ssa.Phi)
+							if !isPhi || branch {
+								continue
+							}
+							// flag: false at first, only ever set to true
+							onlyTrue := true
+							for _, fl := range an.PhiLeaves(flag) {
+								if _, isB := an.ConstBool(fl.Val); !isB {
+									onlyTrue = false
+								}
+							}
+							if onlyTrue {
+								once = true
+							}
+						}
+						if !once {
+							okAll = false
+						}
+					}
+					if okAll && n > 0 {
+						kept = true
 					}
 				}
 			}
